@@ -145,7 +145,8 @@ CHECKS = {
              "(clunk/remove vs read/walk/stat/open/create on the same fid) while new fids are allocated disjointly per goroutine; 25% of operations have a file-system "
              "failure injected. In 75% of the cases every mock file-system call parks at a gate inside the session's critical section and a generated schedule decides which "
              "parked call proceeds next; 25% run free. Oracle: every operation returns (deadlock detector: nothing parked, nothing finishing for 10 s); the mock's per-handle "
-             "and per-open-file in-call counters never exceed 1; sequential-consistency check of all results against the reference model (porcupine) where enabled; no fid "
+             "per-open-file and per-directory-iterator in-call counters never exceed 1; per fid, (bound at the start) + (operations that reported binding it) - (clunk/remove "
+             "operations that did not report 'unknown fid') must equal (bound at the end) - a necessary condition for the results to be those of some sequential order; no fid "
              "locked or half-bound at quiescence; race detector. Non-trivial = two operations on the same fid overlapped in real time.",
         require_classes=dict(quick=["same_fid_overlap", "gated", "free_running"], thorough=[]),
         assumptions=["clients never allocate the same new fid from two requests at once (the property's proviso)",
